@@ -1,4 +1,8 @@
-"""C20 — no download reported successful with a file failing its checksum (DESIGN.md §5 C20)."""
+"""C20 — no download reported successful with a file failing its checksum (DESIGN.md §5 C20).
+
+"HTTP error" of the statement is served as 404 in the exhaustive space and as every status of STATUSES (4xx / 5xx) on
+the data URL and on the checksum URL (`dstatus` / `sstatus` / `errpage` of a case); the Lean model of `_download`
+(dataOfStatus / sumOfStatus) reads the statuses that are served."""
 import hashlib
 import itertools
 from . import common as C
@@ -18,7 +22,13 @@ RULE = ('exhaustive: prior file {absent, valid, corrupt} x all data-URL scripts 
         'those with "checksum unavailable" served as a 200 answer holding an empty or whitespace-only text; the texts '
         'really served are parsed by the Lean model of `text.split()[0]` (firstField / parseSum) for the prediction; half of '
         'the layout cases publish the digest in UPPER or MiXeD letter case (a correct checksum: hexadecimal numerals), files that do '
-        'not start with the digest (BOM, BSD form, backslash-escaped line) are outside the statement and not generated. An exception of the call other than '
+        'not start with the digest (BOM, BSD form, backslash-escaped line) are outside the statement and not generated. '
+        '"HTTP error" is every client / server error status, not the one number 404: each of 400, 401, 403, 410, 429, 500, 502, 503 '
+        'is served systematically on the data URL (first request, retry) for every state of the checksum URL, and on the checksum URL '
+        '(pre-check, either verification), and a sixth of the scripted cases holding an error runs once more with one such status per '
+        'request position and URL; error pages: short text, HTML, empty, a text that looks like a checksum line; the statuses that are '
+        'served are read by the Lean model of `_download` (dataOfStatus / sumOfStatus); 1xx / 3xx / other 2xx are no behaviour of the '
+        'statement and not generated. An exception of the call other than '
         'HTTPError/RuntimeError is an outcome (judged on the request log and the file, CORR against the model), not an alarm by itself. '
         'non-trivial = at least one data request was made or the pre-check ran')
 ASSUMPTIONS = ['requests / streaming / hashlib.md5 are outside the model (bodies and checksums are tokens, '
@@ -90,6 +100,52 @@ def _sum_answer(case, s, md5):
     return ({}, md5[s] + tail)
 
 
+# "HTTP error" of the statement: every client / server error status, not the one number 404
+STATUSES = [400, 401, 403, 410, 429, 500, 502, 503]
+ERRPAGES = {'plain': b'not found', 'html': None, 'empty': b'', 'digest': None}
+
+
+def _err_status(case, which, i):
+    """The status with which request number `i` (0-based) to the data / checksum URL is answered when the script says
+    "HTTP error" there: `dstatus` / `sstatus` are cycled over the request positions; absent = 404."""
+    st = case.get(which) or [404]
+    return int(st[i % len(st)])
+
+
+def _err_page(case, status, md5):
+    """The body of an error answer: a short text, an HTML page, nothing - or, 'digest', the digest of the good body
+    (a server whose error pages echo something that looks like a checksum: still an HTTP error, never a checksum)."""
+    kind = case.get('errpage', 'plain')
+    if kind == 'html':
+        return b'<html><body>error %d</body></html>' % status
+    if kind == 'digest':
+        return md5[1].encode() + b'  data.bin\n'
+    return ERRPAGES[kind]
+
+
+def _data_answer(case, i, d, bodies, md5):
+    """What the data URL answers to request number `i` for script token `d`: (status, headers, bytes). One function for
+    the mock, the loopback server and the query to the Lean model (`dataOfStatus` reads the status that is served)."""
+    if d == 0:
+        status = _err_status(case, 'dstatus', i)
+        return (status, {}, _err_page(case, status, md5))
+    if case.get('encoding') == 'gzip':
+        # the server compresses the transfer (Content-Encoding: gzip), as most web servers and CDNs do: the body the
+        # client has to store is the decoded one
+        import gzip
+        return (200, {'Content-Encoding': 'gzip'}, gzip.compress(bodies[d]))
+    return (200, {}, bodies[d])
+
+
+def _sum_full_answer(case, i, s, md5):
+    """What the checksum URL answers to request number `i` for script token `s`: (status, headers, text or bytes)."""
+    a = _sum_answer(case, s, md5)
+    if a is None:
+        status = _err_status(case, 'sstatus', i)
+        return (status, {}, _err_page(case, status, md5))
+    return (200, a[0], a[1])
+
+
 def _sumfmt(case):
     if case.get('layout') is not None:
         return 'layout'
@@ -106,27 +162,32 @@ def impl(case):
     ds, ss = list(case['ds']), list(case['ss'])
     log = []
 
+    served = []
+    n_req = {'data': 0, 'sum': 0}
+
     def data_cb(request):
         log.append('data')
-        d = ds.pop(0) if ds else 0
-        if d == 0:
-            return (404, {}, b'not found')
-        if case.get('encoding') == 'gzip':
-            # the server compresses the transfer (Content-Encoding: gzip), as most web servers and CDNs do: the body the
-            # client has to store is the decoded one
-            import gzip
-            return (200, {'Content-Encoding': 'gzip'}, gzip.compress(bodies[d]))
-        return (200, {}, bodies[d])
+        i = n_req['data']
+        n_req['data'] += 1
+        if not ds:
+            served.append(['data', 404])
+            return (404, {}, b'not found')       # exhausted script (ASSUMPTIONS)
+        a = _data_answer(case, i, ds.pop(0), bodies, md5)
+        served.append(['data', a[0]])
+        return a
 
     def sum_cb(request):
         log.append('sum')
-        s = ss.pop(0) if ss else 0
-        a = _sum_answer(case, s, md5)
-        if a is None:
-            return (404, {}, 'not found')
-        return (200, a[0], a[1])
+        i = n_req['sum']
+        n_req['sum'] += 1
+        if not ss:
+            served.append(['sum', 404])
+            return (404, {}, 'not found')        # exhausted script (ASSUMPTIONS)
+        a = _sum_full_answer(case, i, ss.pop(0), md5)
+        served.append(['sum', a[0]])
+        return a
     if case.get('server'):
-        return _impl_server(case, bodies, md5, data_cb, sum_cb, log)
+        return _impl_server(case, bodies, md5, data_cb, sum_cb, log, served)
     with C.scratch_dir() as d:
         path = d / 'data.bin'
         if case['prior'] is not None:
@@ -166,12 +227,12 @@ def impl(case):
         tok = tok[0] if tok else -1
     n_head = log.count('head')
     log = [x for x in log if x != 'head']
-    return dict(result=result, file=tok, log=log, n_head=n_head,
+    return dict(result=result, file=tok, log=log, n_head=n_head, served=served,
                 file_md5=hashlib.md5(content).hexdigest() if content is not None else None,
                 md5={str(k): v for k, v in md5.items()})
 
 
-def _impl_server(case, bodies, md5, data_cb, sum_cb, log):
+def _impl_server(case, bodies, md5, data_cb, sum_cb, log, served):
     """The same scripted server behaviours served by a real HTTP server on the loopback interface (the `responses` mock
     hands the client an already decoded stream, so a compressed transfer cannot be told from a plain one there)."""
     import threading
@@ -259,7 +320,7 @@ def _impl_server(case, bodies, md5, data_cb, sum_cb, log):
         tok = tok[0] if tok else -1
     n_head = log.count('head')
     log2 = [x for x in log if x != 'head']
-    return dict(result=result, file=tok, log=log2, n_head=n_head,
+    return dict(result=result, file=tok, log=log2, n_head=n_head, served=served,
                 file_md5=hashlib.md5(content).hexdigest() if content is not None else None,
                 md5={str(k): v for k, v in md5.items()})
 
@@ -284,6 +345,11 @@ def judge(case, impl_res, ans):
         # them to publish: my layouts or my model of str.split() are wrong, nothing about the real code
         return 'MACHINERY: the served checksum texts parse to %s in the model, the generator meant %s' % (
             m.get('ss'), case['ss'])
+    if m.get('ds') != list(case['ds']):
+        # the Lean model of `_download` (dataOfStatus) reads the statuses that were served differently from what the
+        # generator meant (body / HTTP error): my statuses are outside 200 / 4xx / 5xx, nothing about the real code
+        return 'MACHINERY: the served data statuses read as %s in the model, the generator meant %s' % (
+            m.get('ds'), case['ds'])
     # the property itself, on the real outcome
     returned = ok['result'] in ('skipped', 'done')
     sums = [i for i, r in enumerate(ok['log']) if r == 'sum']
@@ -317,15 +383,21 @@ def judge(case, impl_res, ans):
 def model_query(case, impl_res):
     # the model is given what the checksum URL really sends (the same `_sum_answer` the servers use) and parses it itself
     md5 = _md5s(case)
-    answers = []
-    for s in case['ss']:
-        a = _sum_answer(case, s, md5)
-        if a is None:
-            answers.append(None)
-        else:
-            t = a[1]
-            answers.append([ord(c) for c in (t.decode('latin-1') if isinstance(t, bytes) else t)])
-    return dict(p=PID, op='download', prior=case['prior'], ds=case['ds'], answers=answers,
+    bodies = _bodies(case)
+    answers, sstat = [], []
+    for i, s in enumerate(case['ss']):
+        status, _, t = _sum_full_answer(case, i, s, md5)
+        sstat.append(status)
+        answers.append([ord(c) for c in (t.decode('latin-1') if isinstance(t, bytes) else t)])
+    # the data URL likewise: the status that is served and the token of what it carries (7 = an error page, no body
+    # of the scenario); the model of `_download` (dataOfStatus) decides what is an HTTP error
+    dstat, dbody = [], []
+    for i, d in enumerate(case['ds']):
+        status, _, _b = _data_answer(case, i, d, bodies, md5)
+        dstat.append(status)
+        dbody.append(d if d else 7)
+    return dict(p=PID, op='download', prior=case['prior'], ds=case['ds'], dstat=dstat, dbody=dbody,
+                answers=answers, sstat=sstat,
                 render=[[k, [ord(c) for c in md5[k]]] for k in (1, 2)], other=9)
 
 
@@ -356,6 +428,13 @@ def tally(rep, case, impl_res, ans):
             rep.count('checksum_layout:indented or preceded by a blank line, checksum of a served body')
     if case.get('blank') is not None and 0 in case['ss']:
         rep.count('checksum_unavailable_as_blank_200:%r' % case['blank'])
+    if 'ok' in impl_res:
+        # HTTP error statuses really SERVED (to a request the real code made), per URL
+        for which, status in impl_res['ok'].get('served', []):
+            if status != 200:
+                rep.count('http_error_status_served(%s URL):%d' % ('data' if which == 'data' else 'checksum', status))
+        if any(st != 200 for _, st in impl_res['ok'].get('served', [])):
+            rep.count('error_page:%s' % case.get('errpage', 'plain'))
     rep.count('prior:%s' % case['prior'])
     rep.count('body:' + case.get('body', 'normal'))
 
@@ -379,6 +458,17 @@ def shrink(case):
     if case.get('digestcase') == 'mixed':
         c = dict(case); c['digestcase'] = 'upper'
         yield c
+    if case.get('errpage', 'plain') != 'plain':
+        c = dict(case); c['errpage'] = 'plain'
+        yield c
+    for key in ('dstatus', 'sstatus'):
+        if case.get(key) and list(case[key]) != [404]:
+            c = dict(case); c[key] = [404]
+            yield c
+            if len(case[key]) > 1:
+                for x in case[key]:
+                    c = dict(case); c[key] = [x]
+                    yield c
     if case.get('layout') is not None:
         lay = list(case['layout'])
         for i in range(3):
@@ -393,6 +483,33 @@ def gen(tier, rng):
     HEADS = ['none', 'ok', '403', 'ok_nolen', '501', 'short_len', 'long_len']
     k = 0
     j = 0
+    PAGES = ['plain', 'html', 'empty', 'digest']
+    # every 4xx / 5xx status of STATUSES, systematically: on the data URL at the first request and at the retry, for
+    # every state of the checksum URL; on the checksum URL at the pre-check and at either verification
+    m = 0
+    for status in STATUSES:
+        for prior in (None, 2):
+            for ds in ([0], [2, 0]):
+                for ss in ([], [1, 1, 1], [0, 0, 0], [2, 2, 2]):
+                    m += 1
+                    yield dict(p=PID, prior=prior, ds=ds, ss=ss, head=HEADS[m % 7], dstatus=[status],
+                               sstatus=[STATUSES[(m // 3) % 8]], errpage=PAGES[m % 4],
+                               pathkind=['path', 'str'][(m // 4) % 2])
+        for prior in (None, 1, 2):
+            for ds in ([1], [2, 1]):
+                for ss in ([0, 0, 0], [0, 1, 1], [1, 0, 1], [2, 0, 0]):
+                    m += 1
+                    c = dict(p=PID, prior=prior, ds=ds, ss=ss, head=HEADS[m % 7], sstatus=[status], errpage=PAGES[m % 4],
+                             pathkind=['path', 'str'][(m // 4) % 2])
+                    if m % 6 == 5:
+                        c.update(server=True, head=['none', 'ok', '403'][m % 3], encoding='identity')
+                    yield c
+    # a thin slice of the body sizes first (the whole block comes last and is the first thing a time budget cuts)
+    for body in ('empty', 'one', 'big'):
+        for prior in (None, 1, 2):
+            for ds in ([1], [2, 1]):
+                m += 1
+                yield dict(p=PID, prior=prior, ds=ds, ss=[1, 1, 1], body=body, with_name=bool(m % 2), head=HEADS[m % 7])
     for prior in (None, 1, 2):
         for ld in range(0, L + 1):
             for ds in itertools.product([1, 2, 0], repeat=ld):
@@ -410,6 +527,17 @@ def gen(tier, rng):
                             yield dict(p=PID, prior=prior, ds=list(ds), ss=list(ss), head=['none', 'ok', '403'][k % 3],
                                        server=True, encoding=['gzip', 'identity'][(k // 18) % 2], redirect=bool((k // 18) % 3 == 1),
                                        sumfmt=['name', 'bare_nl'][(k // 36) % 2])
+                        if k % 6 == 3 and (0 in ds or 0 in ss):
+                            # the same behaviours with "HTTP error" served as other 4xx / 5xx statuses (one per request
+                            # position and URL) and other error pages
+                            m += 1
+                            c = dict(p=PID, prior=prior, ds=list(ds), ss=list(ss), head=HEADS[m % 7],
+                                     dstatus=[STATUSES[(m + 3 * i) % 8] for i in range(2)],
+                                     sstatus=[STATUSES[(m // 8 + 5 * i) % 8] for i in range(3)],
+                                     errpage=PAGES[(m // 2) % 4], sumfmt=['name', 'bare_nl'][(m // 5) % 2])
+                            if m % 12 == 7:
+                                c.update(server=True, head=['none', 'ok', '403'][m % 3], encoding='identity')
+                            yield c
                         if k % 6 == 1 and ls > 0:
                             # the same behaviours with the checksum file in another whitespace layout
                             j += 1
@@ -423,6 +551,11 @@ def gen(tier, rng):
                             yield c
                         if not q and ld <= 3:
                             yield dict(p=PID, prior=prior, ds=list(ds), ss=list(ss), head=HEADS[(k + 3) % 7])
+    yield from _gen_bodies(q, HEADS)
+
+
+def _gen_bodies(q, HEADS):
+    k = 0
     for body in ('empty', 'one', 'big'):
         for prior in (None, 1, 2):
             for ds in itertools.product([1, 2, 0], repeat=2):
